@@ -15,6 +15,10 @@ Decided clauses (DESIGN §4 C02):
   R2.8 (E15) inside a loop that walks an input buffer (associated data, ciphertext, message) every read through that buffer
        advances with the loop: an absorber that re-reads the bytes of its first iteration leaves the later bytes
        unauthenticated.
+  R2.9 sealed boxes: the nonce derivation binds both public keys - in every *_seal_nonce helper each key parameter is hashed
+       once, completely (PUBLICKEYBYTES) and in parameter order (ephemeral key first), and seal / seal_open hand it
+       (ephemeral public key, recipient public key). X25519 ignores bit 255 of the ephemeral key; only the nonce
+       authenticates it, so a derivation that skips the ephemeral key makes an altered sealed box open.
 NOT decided: that a changed bit changes the recomputed tag (MAC arithmetic).
 """
 import re
@@ -217,6 +221,7 @@ def run(ctx, chk):
     # R2.8: "changing any bit of the associated data / ciphertext makes the call fail" needs every byte to be absorbed: inside a
     # loop that walks an input buffer no read through that buffer may have a loop-invariant address (E15) - such a read takes
     # the bytes of the first iteration again and the bytes of the later iterations never reach the authenticator.
+    seal_nonce_rule(prog, chk)
     from .. import loopinv
     loopinv.stuck_read_rule(prog, chk, "R2.8", ("crypto_aead/", "crypto_onetimeauth/", "crypto_auth/", "crypto_secretbox/",
                                                 "crypto_box/", "crypto_secretstream/"), floor=20 if prog.config == "native" else 5)
@@ -338,3 +343,56 @@ def analyse(prog, chk, ents, prefix="R2", floors=True):
     _floor(R("R2.3"), "shortened-length call sites", n23, 20)
     _floor(R("R2.4"), "failing exits with a length out-parameter", n24, 20)
     _floor(R("R2.5"), "failing exits x output parameters", n25, 60)
+
+
+def seal_nonce_rule(prog, chk):
+    """R2.9: nonce = H(ephemeral pk || recipient pk) in both sealed-box families"""
+    n = 0
+    for fn in sorted(prog.functions(), key=lambda f: (f.unit, f.name)):
+        if not fn.sname.endswith("_seal_nonce") or not fn.unit.startswith("crypto_box/"):
+            continue
+        keys = [("arg", k) for k, q in enumerate(fn.params) if k > 0 and q["ty"].endswith("*")]
+        for p in cm.paths(prog, fn):
+            if p.kind != "ret":
+                continue
+            n += 1
+            ups = [e for e in p.calls() if (e.callee_name() or "").endswith("_update")]
+            fed = [(e.args[1], e.args[2]) for e in ups if len(e.args) >= 3]
+            if not fed:
+                # one-shot form: H(buffer) with buffer = memcpy(pk1) || memcpy(pk2)
+                for e in p.calls("crypto_generichash", "crypto_generichash_blake2b"):
+                    if len(e.args) < 4 or T.root(e.args[2])[0] != "alloca" or e.args[3][0] != "c":
+                        continue
+                    buf = T.root(e.args[2])
+                    parts = []
+                    for w in p.events[:e.idx]:
+                        if w.kind == "call" and (w.callee_name() or "").startswith(("memcpy", "llvm.memcpy", "memmove")) and \
+                                T.root(w.args[0]) == buf and w.args[2][0] == "c":
+                            parts.append((T.linear(w.args[0])[1], w.args[1], w.args[2]))
+                    parts.sort(key=lambda x: x[0])
+                    pos, good = 0, True
+                    for off, _src, ln in parts:
+                        good = good and off == pos
+                        pos += ln[1]
+                    if good and pos == e.args[3][1]:
+                        fed = [(src, ln) for _o, src, ln in parts]
+            want = [(k, fed[i][1] if i < len(fed) else None) for i, k in enumerate(keys)]
+            ok = len(fed) == len(keys) and all(fed[i][0] == keys[i] for i in range(len(keys))) and \
+                all(ln[0] == "c" and ln[1] == 32 for _d, ln in fed)
+            chk.ob("R2.9", fn, "the sealed-box nonce hashes (pk1, pk2), each once, 32 bytes, in this order", ok, loc=fn.loc(),
+                   path=None if ok else p, detail="" if ok else "hash input on this path: %s" %
+                   ", ".join("%s[0..%s)" % (T.show(d, fn), T.show(ln, fn)) for d, ln in fed), key="R2.9 %s transcript" % fn.sname)
+        # callers: (nonce, ephemeral key, recipient key)
+        for caller in prog.functions():
+            if caller.unit != fn.unit:
+                continue
+            for p in cm.paths(prog, caller, inline_helpers=False):
+                for e in p.calls(fn.sname):
+                    pk = [("arg", k) for k, q in enumerate(caller.params) if q["name"] == "pk"]
+                    second_ok = bool(pk) and e.args[2] == pk[0]
+                    first = T.root(e.args[1])
+                    first_ok = first[0] == "alloca" or (first[0] == "arg" and caller.params[first[1]]["name"] == "c" and e.args[1] == first)
+                    n += 1
+                    chk.ob("R2.9", caller, "the nonce helper receives (ephemeral public key, recipient public key)", first_ok and second_ok,
+                           loc=caller.loc(e.iid), path=None if first_ok and second_ok else p, key="R2.9 %s call" % caller.sname)
+    chk.floor("R2.9", "sealed-box nonce derivations and their call sites", n, 6)
